@@ -122,6 +122,7 @@ type FnCtx struct {
 	ghostFuncs map[string]ghostFn
 	stack      []*ssa.Function
 	curClause       *Clause
+	hypLabels       []string
 	headMarkForHyps int
 	hyps       []Term // goals already proved at the same program point (step clauses are proved in order, each may use the earlier ones)
 	assumeMode bool // specification currently evaluated is going to be assumed (not proved)
@@ -1283,8 +1284,10 @@ func (fr *Frame) backEdge(from *ssa.BasicBlock, li *loopInfo, st *State) {
 				fx.assumeMode = false
 				if okA && len(ta) < 30000 {
 					fx.hyps = append(fx.hyps, ta)
+					fx.hypLabels = append(fx.hypLabels, c.Label)
 				} else if len(t) < 20000 {
 					fx.hyps = append(fx.hyps, t)
+					fx.hypLabels = append(fx.hypLabels, c.Label)
 				}
 			})
 		}
@@ -1294,12 +1297,26 @@ func (fr *Frame) backEdge(from *ssa.BasicBlock, li *loopInfo, st *State) {
 	for _, c := range invs {
 		fx.s.goal(func() {
 			t := fr.evalClause(c, st, li)
+			all := fx.hyps
+			if len(c.Uses) > 0 && len(fx.hypLabels) == len(all) {
+				var sel []Term
+				for i, h := range all {
+					for _, u := range c.Uses {
+						if fx.hypLabels[i] == u {
+							sel = append(sel, h)
+						}
+					}
+				}
+				fx.hyps = sel
+			}
 			fx.oblige("inv-pres", fmt.Sprintf("%s/inv-pres/loop%d/%s", name, li.ordinal, c.Label), c.Text, st, t, b.Instrs[0].Pos(), fr.props())
+			fx.hyps = all
 		})
 	}
 	fr.visitedMode = 0
 	})
 	fx.hyps = nil
+	fx.hypLabels = nil
 	fx.headMarkForHyps = 0
 	// vacuity guard: this back edge is reachable under everything assumed so far
 	if fr.top && fx.quiet == 0 && st.guard != "false" && (len(invs) > 0 || (fr.fc != nil && len(fr.fc.Steps[li.ordinal]) > 0)) {
